@@ -266,9 +266,11 @@ fn main() {
     // the driver's own free-instance seed moves compare raw instance vectors; for emulated elements a
     // different *well-formed representation of the same residue* is legitimate witness freedom, so
     // C05 also runs its own seed moves with a semantic comparison (c05_ops/attack.rs)
-    // (the driver's stage stays on with small counts as a generic layer)
-    opts.seed_cells = if thorough { 32 } else { 12 };
-    opts.seed_inputs = 1;
+    // (the driver's stage is switched off here: on these k = 10..12 circuits with 20+ columns one
+    // `attack_free` call costs seconds; measured: 12 cells x 1 input per entry > 160 CPU-minutes in
+    // the quick tier)
+    opts.seed_cells = 0;
+    opts.seed_inputs = 0;
     let mut opts_nonunique = opts.clone();
     opts_nonunique.ars = None;
     opts_nonunique.max_positions = 0;
